@@ -70,6 +70,13 @@ func ParseInput(r *rng.Rand, n *spec.Node, o InOpts) any {
 		if r.Intn(10) == 0 {
 			k = r.Range(4, 7)
 		}
+		if k == 0 && r.Bool() {
+			// a nil slice is a list like any other: present, length 0 (`var tags []string`, a slice field of a record that was never set)
+			if n.Elem.Kind == spec.String && r.Bool() {
+				return []string(nil)
+			}
+			return []any(nil)
+		}
 		out := make([]any, k)
 		for i := range out {
 			out[i] = ParseInput(r, n.Elem, o)
